@@ -2380,6 +2380,10 @@ func runC18(c *Ctx) error {
 		c.Eval("consts", false)
 	}
 
+	// runs handed to the families of c18ext.go, which run AFTER everything else (they fork c.rng:
+	// placed at the end they leave the random inputs of all earlier families as they were)
+	var extRuns []*c18Run
+
 	// ---- bits.go (kind 6)
 	nb := c.N(40, 2000)
 	for i := 0; i < nb; i++ {
@@ -2502,6 +2506,9 @@ func runC18(c *Ctx) error {
 				}
 			}
 			c18OwnEncodings(c, base, chunkLimit)
+			if class == 2 {
+				extRuns = append(extRuns, base)
+			}
 			if class == 2 && (cv.bl == 32 || c.Thorough()) {
 				c18TamperRound3(c, base)
 				c18Environments(c, base)
@@ -2571,5 +2578,17 @@ func runC18(c *Ctx) error {
 			}
 		}
 	}
+
+	// ---- c18ext.go: curve parameters (kind 10), elliptic.UnmarshalCompressed (kind 9), non-canonical
+	// points inside Round2, wrong-round bytes, argument validation of the rounds (kind 11)
+	extT0 := time.Now()
+	c18CurveParams(c)
+	c18Compressed(c)
+	for i, base := range extRuns {
+		c18NonCanonicalPoints(c, base)
+		c18WrongRound(c, base, i == 0)
+		c18RoundValidation(c, base, base.cv.bl == 32 || c.Thorough())
+	}
+	c.Note("c18ext families (compressed points, wrong round, round validation): %d ms", time.Since(extT0).Milliseconds())
 	return nil
 }
